@@ -47,6 +47,11 @@ CLAIMED = {
    note="Trusted: CompressPoseidon2 is a deterministic function of its two arguments (assumed contract); i >> n == 0 iff 0 <= i < 2^n. Not under contract: BuildMerkleTree / Open (nested slices, parallel.Execute) and the accumulator/merkletree package (bounded stand-in not built).",
    technique="contract-based deductive verification with an opaque-value layer (uninterpreted hash sort), loop invariant over a recursive specification function",
    design="§5 C16"),
+ "C17": dict(
+   text="Deductive proof of acceptance-implies-check contracts: the Vortex verifier returns nil only if every prescribed check was made and passed on the values the relation speaks about (claims vs. uAlpha, codeword test, and for every selected column: range, consistency with uAlpha, SIS hash, Merkle authentication - as an end-of-iteration obligation); Pedersen Verify / BatchVerifyMultiVk of all curves: subgroup tests on every commitment and proof (quantified loop invariants), pairing check on exactly the prescribed arguments (single verify), lengths.",
+   note="Opaque-call layer: callees return arbitrary values (assumed not to write through arguments); IsInSubGroup declared pure. Sufficiency of the prescribed checks and completeness are not proved. SHPLONK, fflonk, permutation, plookup, FRI and mpcsetup verifiers are not under contract.",
+   technique="contract-based deductive verification: ghost capture of callee arguments/results at call-site cut points, loop invariants with a shape-independent iteration counter, end-of-iteration obligations",
+   design="§5 C17"),
  "C19": dict(
    text="Deductive proof per alias partition: every field-element function under contract with two or more pointer operands (Add, Sub, Double, Neg, Select, Mul, Square, _mulGeneric, Set, Equal, NotEqual, Cmp, ...) is verified once for every set partition of its pointer operands with exact points-to, against postconditions over old() values and a frame clause that forbids writes to non-destination operands.",
    note="Covers the prime-field layer of all 23 packages (portable Go bodies). Extension-field, point, polynomial and vector methods are not yet under contract (not_covered); assembly leaf methods are outside (C09).",
